@@ -54,8 +54,12 @@ Step(m, e) ==
     [] e.ev = "Main"      -> [m EXCEPT !.curT = -1]
     [] e.ev = "PipeBegin" -> [m EXCEPT !.inPipe = TRUE, !.pos = 0, !.vis = {}, !.last = "", !.ncols = e.ncols, !.loop = 0]
     [] e.ev = "PipeEnd"   -> [m EXCEPT !.inPipe = FALSE, !.declT = IF m.curT >= 0 THEN m.declT \cup {m.curT} ELSE m.declT]
-    [] e.ev \in {"From", "Join", "Append"} ->
+    [] e.ev \in {"From", "Join"} ->
          [m EXCEPT !.defC = m.defC \cup Set(e.defs), !.vis = m.vis \cup Set(e.defs), !.pos = m.pos + 1, !.last = e.ev]
+    \* the ids of an appended table instance are defined, but they are not
+    \* columns of the enclosing pipeline (rows are matched by position)
+    [] e.ev = "Append" ->
+         [m EXCEPT !.defC = m.defC \cup Set(e.defs), !.pos = m.pos + 1, !.last = e.ev]
     [] e.ev = "Compute"   ->
          [m EXCEPT !.defC = m.defC \cup Set(e.defs), !.vis = m.vis \cup Set(e.defs), !.pos = m.pos + 1, !.last = e.ev,
                    !.aggC = IF e.agg THEN m.aggC \cup Set(e.defs) ELSE m.aggC]
